@@ -531,3 +531,83 @@ func closeAll(c net.Conn, outs []vkit.AcceptResult) {
 		}
 	}
 }
+
+// TestProp_ExpiryHistories: real-time histories in which the root that was
+// current when the node was authorized EXPIRES (real certificates, real clock):
+// the node must keep connecting through its second chain, whether it fetched its
+// credentials before or only after the expiry, and whether or not the server
+// has rotated meanwhile. A handful of cases (each waits ~4 s).
+func TestProp_ExpiryHistories(t *testing.T) {
+	rec := vkit.Rec(prop)
+	n := 2
+	if vkit.Thorough() {
+		n = 8
+	}
+	vkit.SetRapidChecks(n)
+	rapid.Check(t, func(t *rapid.T) {
+		fetchBefore := rapid.Bool().Draw(t, "fetchBeforeExpiry")
+		serverRotates := rapid.Bool().Draw(t, "serverRotatesAfterExpiry")
+		nodeWrapper := rapid.Bool().Draw(t, "nodeStorageWrapper")
+		w := vkit.NewWorld(vkit.WorldConfig{StorageWrapper: rapid.Bool().Draw(t, "serverStorageWrapper"), NoRoots: true})
+		defer w.Close()
+		now := time.Now()
+		ttl := 2 * time.Second
+		// current expires in ~2 s, next is valid for an hour (x509 times have second granularity)
+		w.InstallRoots(vkit.MintRoot(now.Add(-time.Hour), now.Add(ttl).Truncate(time.Second).Add(time.Second)), vkit.MintRoot(now.Add(-30*time.Minute), now.Add(time.Hour)))
+		expiry := now.Add(ttl).Truncate(time.Second).Add(time.Second)
+		rig := vkit.NewRig(w, vkit.RigConfig{})
+		defer rig.Close()
+		var nopts []nodeenrollment.Option
+		if nodeWrapper {
+			nopts = append(nopts, nodeenrollment.WithStorageWrapper(vkit.NewAead("node")))
+		}
+		node := vkit.NewActor("node", nopts...)
+		if _, err := w.Authorize(node); err != nil {
+			t.Fatalf("authorize: %v", err)
+		}
+		var hist []string
+		hist = append(hist, "authorize (both roots valid)")
+		desc := func() map[string]any {
+			return map[string]any{"fetch_before_expiry": fetchBefore, "server_rotates_after_expiry": serverRotates, "node_wrapper": nodeWrapper, "history": hist}
+		}
+		if fetchBefore {
+			c, err := rig.Dial(node)
+			outs := rig.Sync()
+			closeAll(c, outs)
+			hist = append(hist, fmt.Sprintf("dial before expiry -> err=%v", err))
+			if err != nil {
+				vkit.Violate(t, prop, "C07/registered-node-cannot-connect", fmt.Sprintf("dial before any expiry failed: %v", err), desc())
+				return
+			}
+		}
+		time.Sleep(time.Until(expiry) + 1200*time.Millisecond)
+		hist = append(hist, "root that was current at authorization has expired")
+		if serverRotates {
+			before := w.Roots()
+			after, err := rotation.RotateRootCertificates(w.Ctx, w.Store, w.O()...)
+			if err != nil {
+				t.Fatalf("rotate: %v", err)
+			}
+			if !bytes.Equal(after.Current.PublicKeyPkix, before.Next.PublicKeyPkix) {
+				vkit.Violate(t, prop, "C07/expired-current-not-replaced-by-next", "after current expired with next valid, rotation did not promote next", desc())
+				return
+			}
+			hist = append(hist, "server rotates (next promoted)")
+		}
+		for i := 0; i < 2; i++ {
+			c, err := rig.Dial(node)
+			outs := rig.Sync()
+			auth := false
+			for _, o := range outs {
+				auth = auth || o.Authenticated()
+			}
+			closeAll(c, outs)
+			hist = append(hist, fmt.Sprintf("dial after expiry #%d -> err=%v", i+1, err))
+			if err != nil || !auth {
+				vkit.Violate(t, prop, "C07/registered-node-cannot-connect/after-root-expiry", fmt.Sprintf("after the root that was current at authorization expired, the node could not connect through its other, still valid and recognised chain: %v", err), desc())
+				return
+			}
+		}
+		rec.Case("expiry-history", fmt.Sprint(fetchBefore, serverRotates, nodeWrapper), true, func() any { return desc() })
+	})
+}
